@@ -49,16 +49,19 @@ def plan(tier, seed):
     kinds = ['default', 'custom', 'defs', 'custom']
     if tier == 'quick':
         return [{'vocab': kinds[k % 4], 'histories': 3, 'maxlen': 24, 'ndocs': 10,
-                 'name': 'hist%d' % k} for k in range(16)]
+                 'name': 'hist%d' % k} for k in range(16)] + \
+               [{'vocab': 'nlargs', 'histories': 3, 'maxlen': 24, 'ndocs': 12, 'name': 'pclass%d' % k} for k in range(2)]
     return [{'vocab': kinds[k % 4], 'histories': 10, 'maxlen': 40, 'ndocs': 14,
-             'name': 'hist%d' % k} for k in range(32)]
+             'name': 'hist%d' % k} for k in range(32)] + \
+           [{'vocab': 'nlargs', 'histories': 10, 'maxlen': 40, 'ndocs': 16, 'name': 'pclass%d' % k} for k in range(6)]
 
 
 def floors(tier):
     return {'evaluations': 1500, 'distinct_nontrivial': 300, 'fresh_interpreter_references': 150,
             'history_calls_compared': 1500, 'db_snapshots_compared': 1500, 'hist:mode:strict': 300,
             'hist:mode:tolerant': 300, 'hist:outcome:parse_error': 30, 'verbatim_arg_documents': 10,
-            'context_extending_documents': 9, 'parses_with_shared_parser_object': 200}
+            'context_extending_documents': 9, 'parses_with_shared_parser_object': 200,
+            'parser_class_context_documents': 50}
 
 
 def setup(rec):
@@ -171,6 +174,17 @@ def run_shard(desc, rec):
     rng = rng_for(desc)
     refs_by_ctx = {}
     for h in range(desc['histories']):
+        if desc['vocab'] == 'nlargs':
+            # the context built from argument parser classes (comma-separated list, characters group, tack-on field
+            # macros, markers returning full node lists, embellishments, any-delimiter arguments)
+            cdesc = {'vocab': 'nlargs'}
+            docs = list(work.nlargs_strings(rng, desc['ndocs']))
+            rec.monitor('parser_class_context_documents', len(docs))
+            refs = refs_by_ctx.setdefault(json.dumps(cdesc), {})
+            calls = [[rng.choice(docs), rng.random() < 0.5] for _ in range(rng.randint(10, desc['maxlen']))]
+            rec.case(len(calls))
+            check_case({'ctx': cdesc, 'calls': calls, 'shared_parser': bool(h % 2)}, rec, refs)
+            continue
         src = work.DocSource(rng, 'default' if desc['vocab'] == 'defs' else desc['vocab'], depth=4, per_vocab=10 ** 9,
                              cover_base=rng.randrange(1000))
         docs = []
